@@ -35,3 +35,26 @@ Theorem c03_waits_go_down : forall s0 P g, reachable s0 P g ->
   exists t, 0 <= t < tlen (thr g) /\ gstep g (LFinish t) <> None.
 Proof. intros s0 P g R. exact (some_worker_can_finish g (reachable_inv s0 P g R)). Qed.
 Print Assumptions c03_waits_go_down.
+
+From SLU Require Import SchedBusy.
+
+(* column level: whenever the scheduler hands panel j with bcol b to a worker, the busy snapshot the worker takes
+   (pxgstrf_mark_busy_descends) contains every column of every proper descendant panel of j that is not DONE; fsup is the
+   first column of the supernode containing b-1 as read from the (changing) supernode table -- any value does.
+   forestb / chainb / postb are decidable conditions on the static image (etree, panel sizes and types), evaluated on
+   ParallelInit's image of every real run by the correspondence. *)
+Theorem c03_busy_columns_marked : forall s0 P g t cur s' j b fsup x c,
+  reachable s0 P g -> 0 <= t < tlen (thr g) -> thr_get (thr g) t = (M_READY, cur) ->
+  sched (gs g) cur = (s', j, b) -> j <> c_EMPTY ->
+  forestb s0 = true -> chainb s0 = true -> postb s0 = true ->
+  anc s' x j -> x <> j -> st s' x <> c_DONE -> x <= c < x + sz s' x ->
+  In c (mark_busy s' j b fsup).
+Proof. exact busy_columns_marked. Qed.
+Print Assumptions c03_busy_columns_marked.
+
+(* the static conditions hold on ParallelInit's image of a forest with a relaxed supernode that is not a path (0,1 -> 2),
+   a pipelined chain above it and a second tree *)
+Example c03_static_conditions_example :
+  let s := parallel_init 8 (2 :: 2 :: 3 :: 4 :: 5 :: 8 :: 7 :: 8 :: nil) 1 3 in
+  check_init s = true /\ forestb s = true /\ chainb s = true /\ postb s = true /\ mark_busy s 3 0 0 = (0 :: 1 :: 2 :: nil).
+Proof. vm_compute. repeat split; reflexivity. Qed.
